@@ -382,6 +382,32 @@ pub fn run(cfg: &Cfg, rep: &mut Rep) {
                 }
                 let sign = *r.pick(&[-128i8, -1, 0, 1, 127, -2, 2]);
                 check_compose(rep, sign, f);
+                if r.chance(1, 8) {
+                    // fields that sum to exactly k centuries (the negation of a whole century has to carry), split at random
+                    let k = 1 + r.below(40);
+                    let mut rest = k as i128 * NPC;
+                    let mut g = [0u64; 7];
+                    let w = [NS_D, NS_H, NS_MIN, NS_S, NS_MS, NS_US, 1];
+                    for j in (1..7).rev() {
+                        if r.bool() {
+                            let take = r.below(5000) as i128 * w[j];
+                            if take <= rest {
+                                g[j] = (take / w[j]) as u64;
+                                rest -= take;
+                            }
+                        }
+                    }
+                    // what is left goes to days and hours (a century is a whole number of both)
+                    let dleft = rest / NS_D;
+                    rest -= dleft * NS_D;
+                    let dd = if r.bool() && dleft > 0 { 1 } else { 0 };
+                    g[0] += (dleft - dd) as u64;
+                    g[1] += (dd * 24) as u64;
+                    // the remainder below one day is a whole number of nanoseconds
+                    g[6] += rest as u64;
+                    rep.class("compose/whole-centuries");
+                    check_compose(rep, sign, g);
+                }
             }
             _ => {
                 if r.chance(1, 3) {
